@@ -144,6 +144,37 @@ def run_case(case, ctx):
                 probs.append(("pattern-matches-empty", "pattern %d matches the empty string" % rid))
         if {v: k_ for k_, v in R._str_regex.items()} != dict(R._regex_str):
             probs.append(("pattern-id-not-bijective", "tables not inverse"))
+        # fault injection at the registration function: a rule it must reject (pattern that matches '', two adjacent
+        # patterns) is rejected AND leaves the rule base exactly as it was
+        snap = (dict(R._regex_str), dict(R._str_regex), sorted(R._regex), list(R.rules), R._regex_cnt)
+        for bi, bad in enumerate(((r"(zzqq|zzqw)?\s*", R.dimension(L.Time)), (r"(?=zzqq)", R.dimension(L.Time)), ("zzqa", "zzqb"), (R.dimension(L.Time), r"(zzqc)*"))):
+            mon.events["rejected_registration_attempt"] += 1
+            try:
+                R.rule(*bad)(lambda ts, *a: None)
+                accepted = True
+            except ValueError:
+                accepted = False
+            except Exception as e:  # noqa
+                accepted = False
+                probs.append(("registration-raises-unexpectedly", "%s: %s" % (type(e).__name__, e)))
+            now = (dict(R._regex_str), dict(R._str_regex), sorted(R._regex), list(R.rules), R._regex_cnt)
+            if accepted and bi != 1:
+                probs.append(("unsound-rule-accepted", "rule(%r) was accepted" % (bad,)))
+            if now != snap:
+                if accepted:
+                    # (a look-ahead-only pattern does not match '' and may be accepted: undo it)
+                    pass
+                else:
+                    probs.append(("rejected-registration-left-traces", "after the rejected rule(%r) the tables differ: ids %s -> %s" % (bad, snap[2][-2:], now[2][-2:])))
+                # restore, so that the rest of this worker sees the shipped rule base
+                R._regex_str.clear(); R._regex_str.update(snap[0]); R._str_regex.clear(); R._str_regex.update(snap[1])
+                for k_ in list(R._regex):
+                    if k_ not in snap[2]:
+                        del R._regex[k_]
+                for k_ in list(R.rules):
+                    if k_ not in snap[3]:
+                        del R.rules[k_]
+                R._regex_cnt = snap[4]
         if probs:
             return C.viol("structure/" + probs[0][0], "%d problems: %s" % (len(probs), probs[:4]), "structure", "structure")
         return C.ok("structure", "structure", nt=True, obs_={"rules": len(L.registry), "patterns": len(R._regex), "probe_texts": len(probes)})
